@@ -35,7 +35,22 @@ public:
   void AddVariables(const mp::VarArrayDef &) {}
 };
 
-using Cvt = mp::FlatCvtImpl<mp::MIPFlatConverter, NullAPI>;
+/// converter options read by the preprocessors, settable per case (`opt <name> <0|1>`): the real
+/// `IfPrepro*()` accessors are called through CRTP dispatch, so a derived converter can supply the values the
+/// solver options `cvt:pre:eqresult`, `cvt:pre:eqbinary`, `cvt:pre:unnest` would set.
+struct HOpts { bool eqresult = true, eqbinary = true, unnest = true; };
+static HOpts g_opts;
+
+template <class Impl, class API, class Model>
+class OptCvt : public mp::MIPFlatConverter<Impl, API, Model> {
+public:
+  OptCvt(mp::Env &e) : mp::MIPFlatConverter<Impl, API, Model>(e) {}
+  bool IfPreproEqResBounds() const { return g_opts.eqresult; }
+  bool IfPreproEqBinVar() const { return g_opts.eqbinary; }
+  bool IfPreproNestedAndsOrs() const { return g_opts.unnest; }
+};
+
+using Cvt = mp::FlatCvtImpl<OptCvt, NullAPI>;
 
 // ---------------------------------------------------------------- numbers
 std::string num(double x) {
@@ -333,7 +348,14 @@ int main(int argc, char **argv) {
     if (tk.t.empty()) { std::puts("bad-op"); continue; }
     try {
       const std::string h = tk.next();
-      if (h == "case") { s.reset(); std::puts("ok"); }
+      if (h == "case") { s.reset(); g_opts = HOpts(); std::puts("ok"); }
+      else if (h == "opt") {
+        if (s.started) throw Bad();
+        const std::string nm = tk.next(); bool v = tk.next() != "0";
+        if (nm == "eqresult") g_opts.eqresult = v; else if (nm == "eqbinary") g_opts.eqbinary = v;
+        else if (nm == "unnest") g_opts.unnest = v; else throw Bad();
+        std::puts("ok");
+      }
       else if (h == "var") {
         if (s.started) throw Bad();
         double l = s.number(tk), u = s.number(tk); int ty = std::atoi(tk.next().c_str());
